@@ -57,13 +57,15 @@ func GetJsonDataType(t dsl.Type) JsonDataType {
 		case dsl.ComplexFloat32, dsl.ComplexFloat64:
 			return JsonArray
 		case dsl.Date, dsl.Time, dsl.DateTime:
-			return JsonNumber
+			// formatted as strings ("2020-01-17", "10:50:25.777888999", ...)
+			return JsonString
 		default:
 			panic(fmt.Sprintf("unexpected primitive type %s", td))
 		}
 	case *dsl.EnumDefinition:
 		if td.IsFlags {
-			return JsonArray
+			// an array of symbols, or the integer value when it is not a combination of defined flags
+			return JsonArray | JsonNumber
 		}
 		return JsonString | JsonNumber
 	case *dsl.RecordDefinition:
